@@ -175,3 +175,38 @@ prop("C01",
           "thorough sweep); histories carry valid objects only (one header per id, acyclic parents, validator-accepted expiration strings) - "
           "malformed metadata (e.g. a parent sharing its children's split id) makes collectChildren recurse forever in the real code and is excluded.",
      rule=META_RULE)
+
+prop("C02",
+     theorems=["NeoFS.Meta.run_ctrOK", "NeoFS.Meta.typed_counters_exact", "NeoFS.Meta.dbCounters_eq_viewCount",
+               "NeoFS.Meta.putChain_inv", "NeoFS.Meta.deleteMetadata_frame", "NeoFS.Meta.apply_removal",
+               "NeoFS.Meta.container_info_counterexample"],
+     lean_modules=["NeoFS.Props.C02"],
+     engines=[dict(name="meta", quick=1, thorough=1)],
+     spec_assertions=["typed-counters", "container-info"],
+     claim="Lean proves by induction over ALL histories of valid objects (put with embedded parents, marks of both kinds, tombstones for stored "
+           "and unstored targets, deletions, revivals, container removals) that the five typed counters equal the number of indexed objects "
+           "of each kind in live containers, and that every floored subtraction is covered (no wrap, no double count). The container size "
+           "estimation is shown NOT exact (decide-checked counterexample) and recorded as known finding C02-gc-counter; all other deviations "
+           "found were repaired (4 fix commits). Model tied to the real metabase by the differential history run with counters and container "
+           "info dumped after every op.",
+     note="Trusted: Lean kernel; Model/Meta.lean + bbolt semantics (correspondence); ValidOp (no storage groups, regular embedded parents, distinct "
+          "ids along a header chain) describes what the format validator lets through. Shard.ContainerInfo delegates to the metabase value.",
+     rule=META_RULE)
+
+prop("C07",
+     theorems=["NeoFS.Meta.locked_rejects_tombstone", "NeoFS.Meta.locked_rejects_tombstone_put",
+               "NeoFS.Meta.locked_never_expired_or_removed", "NeoFS.Meta.locked_available_without_parent",
+               "NeoFS.Meta.lock_rejected_for_tombstoned", "NeoFS.Meta.lock_not_tombstonable",
+               "NeoFS.Meta.expired_iteration_skips_locked", "NeoFS.Meta.isLocked_iff_live_lock"],
+     lean_modules=["NeoFS.Props.C07"],
+     engines=[dict(name="meta", quick=1, thorough=1)],
+     spec_assertions=["islocked-", "lock-rejected", "tombstone-rejected", "lock-object-cannot", "exists-reports", "expired-iteration"],
+     claim="Lean proves on every well-formed (hence every reachable) bucket: while SOME unexpired, not-removed lock exists a tombstone for the "
+           "object is rejected and nothing is written; the object's own status is available (never expired/removed/marked); a lock is "
+           "rejected for a tombstoned object (also when the object has meanwhile expired); a lock object cannot be tombstoned; expired-object "
+           "iteration never yields a locked object. Two genuine defects found by the run were repaired (first-lock-only, lock on "
+           "expired+tombstoned). Lock/tombstone 'arriving concurrently' = either order of the two bolt transactions: both orders are histories.",
+     note="Trusted: Lean kernel; Model/Meta.lean (correspondence); bolt transaction atomicity (a put is one transaction). The shard GC loop itself "
+          "(removeGarbage deletes what GetGarbage lists; collectExpiredObjects consumes IterateExpired) is covered only through these two "
+          "metabase views here; forced marks (MarkGarbage) deliberately override locks as the property allows.",
+     rule=META_RULE)
